@@ -33,4 +33,4 @@ def standins(tier, seed):
     return K.symcoef_jobs('gp', ['gp'], tier, seed, extra_configs=K.CUSTOM)
 
 
-replay = K.replay_operator
+replay = K.replay_any
